@@ -24,6 +24,7 @@ stackscope is imported inside functions only.
 from __future__ import annotations
 
 import contextlib
+import functools
 import gc
 import io
 import json
@@ -53,8 +54,13 @@ ASYNC_VARIANTS = ("coro", "agen")
 #  Ar  __aenter__ raises E1 when c() (after its trap)
 #  AG  @asynccontextmanager awaiting a trap before and after its yield     AGw ... swallowing
 #  AG2 @asynccontextmanager with an inner `async with A` around its yield
-SYNC_KINDS = ("S", "Sw", "Sr", "Sq", "G", "Gw", "G2")
-ASYNC_KINDS = ("A", "Aw", "Ae", "Ax", "A0", "Ar", "AG", "AGw", "AG2")
+#  Sa/Aa enter/exit are aliases of methods with other names (`__exit__ = close`)
+#  Sd/Ad enter/exit wrapped by a decorator (functools.wraps; the running frame is `wrapper(self, ...)`)
+#  Sm/Am enter/exit inherited from mixin base classes
+#  Sv/Av wrapped by a decorator whose wrapper takes (*args, **kwargs)   [known discrepancy, only
+#        used by leg_known: stackscope cannot recover obj of the exiting manager]
+SYNC_KINDS = ("S", "Sw", "Sr", "Sq", "G", "Gw", "G2", "Sa", "Sd", "Sm", "Sv")
+ASYNC_KINDS = ("A", "Aw", "Ae", "Ax", "A0", "Ar", "AG", "AGw", "AG2", "Aa", "Ad", "Am", "Av")
 # none / local name / attribute / subscript / name, expression over two lines / name, suspension inside the expression
 TARGETS = ("n", "v", "a", "s", "m", "y")
 
@@ -120,9 +126,9 @@ def _gen_items(rng, variant, is_async):
     items = []
     for _ in range(n):
         if is_async:
-            kind = rng.choice(("A", "A", "A", "Aw", "Ae", "Ax", "A0", "Ar", "AG", "AGw", "AG2"))
+            kind = rng.choice(("A", "A", "A", "Aw", "Ae", "Ax", "A0", "Ar", "AG", "AGw", "AG2", "Aa", "Ad", "Am"))
         else:
-            kind = rng.choice(("S", "S", "S", "Sw", "Sr", "Sq", "G", "Gw", "G2"))
+            kind = rng.choice(("S", "S", "S", "Sw", "Sr", "Sq", "G", "Gw", "G2", "Sa", "Sd", "Sm"))
         items.append([kind, rng.choice(("n", "n", "n", "v", "v", "v", "v", "a", "s", "m", "y"))])
     return items
 
@@ -272,10 +278,11 @@ MATRIX_EXITS = ("fall", "ret_c", "ret_v", "break", "continue", "raise_out", "rai
 
 def _matrix_items(variant):
     its = [[["S", "v"]], [["Sw", "n"]], [["G", "a"]], [["S", "n"], ["Sw", "v"]], [["G2", "v"]],
-           [["Sq", "n"]], [["S", "v"], ["S", "y"]]]
+           [["Sq", "n"]], [["S", "v"], ["S", "y"]], [["Sa", "v"], ["Sd", "n"]], [["Sm", "v"]]]
     if variant in ASYNC_VARIANTS:
         its += [[["A", "v"]], [["Aw", "n"]], [["AG", "v"]], [["A", "n"], ["A0", "v"]],
-                [["Ax", "s"]], [["AG2", "n"]], [["AGw", "v"], ["Ae", "n"]], [["A", "n"], ["A", "y"]]]
+                [["Ax", "s"]], [["AG2", "n"]], [["AGw", "v"], ["Ae", "n"]], [["A", "n"], ["A", "y"]],
+                [["Aa", "v"], ["Ad", "n"]], [["Am", "s"]]]
     return its
 
 
@@ -434,7 +441,9 @@ class _Emit:
         self.k = 100
         self.loopvar = 0
         self.lines = []
-        self.sites = {}          # site -> [line (1-based), item index, kind, is_async]
+        # site -> [line of the with statement (1-based; what Context.start_line reports for every
+        #          item), item index, kind, is_async, target, line on which the item starts]
+        self.sites = {}
 
     def susp(self, agen_yield=False):
         self.k += 1
@@ -458,12 +467,15 @@ class _Emit:
         if k == "with":
             is_async = s[1] and v in ASYNC_VARIANTS
             parts = []
+            stmt_line = sum(l.count("\n") + 1 for l in self.lines) + 1
             for item_i, (kind, tgt) in enumerate(s[2]):
                 if not is_async and kind in ASYNC_KINDS:
                     kind = {"A": "S", "Aw": "Sw", "Ae": "S", "Ax": "S", "A0": "S", "Ar": "Sr",
-                            "AG": "G", "AGw": "Gw", "AG2": "G2"}[kind]
+                            "AG": "G", "AGw": "Gw", "AG2": "G2", "Aa": "Sa", "Ad": "Sd", "Am": "Sm",
+                            "Av": "Sv"}[kind]
                 self.site += 1
-                self.sites[self.site] = [len(self.lines) + 1 + sum(p.count("\n") for p in parts), item_i, kind, bool(is_async)]
+                item_line = stmt_line + sum(p.count("\n") for p in parts)
+                self.sites[self.site] = [stmt_line, item_i, kind, bool(is_async), tgt, item_line]
                 e = "M(%r, %d)" % (kind, self.site)
                 if tgt == "y":
                     # a suspension while the context expression is being evaluated (callable and
@@ -837,7 +849,7 @@ class AsyncMgr(object):
         R.t_begin(self.owner, self, True)
         try:
             R.hook("enter", self)
-            if self.kind in ("A", "Aw", "Ae", "Ar"):
+            if self.kind in ("A", "Aw", "Ae", "Ar", "Aa", "Ad", "Am", "Av"):
                 _r(await trap(-self.site))
                 R.hook("enter2", self)
             if self.kind == "Ar" and _c():
@@ -855,13 +867,116 @@ class AsyncMgr(object):
         R.t_phase(self.owner, self, "exiting")
         try:
             R.hook("exit", self)
-            if self.kind in ("A", "Aw", "Ax", "Ar"):
+            if self.kind in ("A", "Aw", "Ax", "Ar", "Aa", "Ad", "Am", "Av"):
                 _r(await trap(-1000 - self.site))
                 R.hook("exit2", self)
         finally:
             R.log.append(("exited", self.serial))
             R.t_remove(self.owner, self)
         return self.kind == "Aw" and et is not None and issubclass(et, Exception)
+
+
+# ---- flavours: the frame that runs as the exit method is not a function called __exit__ ------
+def _deco_self(fn):
+    @functools.wraps(fn)
+    def wrapper(self, *a, **kw):
+        return fn(self, *a, **kw)
+    return wrapper
+
+
+def _deco_var(fn):
+    @functools.wraps(fn)
+    def wrapper(*args, **kwargs):
+        return fn(*args, **kwargs)
+    return wrapper
+
+
+def _adeco_self(fn):
+    @functools.wraps(fn)
+    async def wrapper(self, *a, **kw):
+        return await fn(self, *a, **kw)
+    return wrapper
+
+
+def _adeco_var(fn):
+    @functools.wraps(fn)
+    async def wrapper(*args, **kwargs):
+        return await fn(*args, **kwargs)
+    return wrapper
+
+
+class SyncAliased(SyncMgr):
+    def open(self):
+        return SyncMgr.__enter__(self)
+
+    def close(self, et, ev, tb):
+        return SyncMgr.__exit__(self, et, ev, tb)
+
+    __enter__ = open
+    __exit__ = close
+
+
+class SyncDecorated(SyncMgr):
+    __enter__ = _deco_self(SyncMgr.__enter__)
+    __exit__ = _deco_self(SyncMgr.__exit__)
+
+
+class SyncVarDecorated(SyncMgr):
+    __enter__ = _deco_var(SyncMgr.__enter__)
+    __exit__ = _deco_var(SyncMgr.__exit__)
+
+
+class _MixSyncEnter(object):
+    def __enter__(self):
+        return SyncMgr.__enter__(self)
+
+
+class _MixSyncExit(object):
+    def __exit__(self, et, ev, tb):
+        return SyncMgr.__exit__(self, et, ev, tb)
+
+
+class SyncMixed(_MixSyncEnter, _MixSyncExit, SyncMgr):
+    pass
+
+
+class AsyncAliased(AsyncMgr):
+    async def aopen(self):
+        return await AsyncMgr.__aenter__(self)
+
+    async def aclose(self, et, ev, tb):
+        return await AsyncMgr.__aexit__(self, et, ev, tb)
+
+    __aenter__ = aopen
+    __aexit__ = aclose
+
+
+class AsyncDecorated(AsyncMgr):
+    __aenter__ = _adeco_self(AsyncMgr.__aenter__)
+    __aexit__ = _adeco_self(AsyncMgr.__aexit__)
+
+
+class AsyncVarDecorated(AsyncMgr):
+    __aenter__ = _adeco_var(AsyncMgr.__aenter__)
+    __aexit__ = _adeco_var(AsyncMgr.__aexit__)
+
+
+class _MixAsyncEnter(object):
+    async def __aenter__(self):
+        return await AsyncMgr.__aenter__(self)
+
+
+class _MixAsyncExit(object):
+    async def __aexit__(self, et, ev, tb):
+        return await AsyncMgr.__aexit__(self, et, ev, tb)
+
+
+class AsyncMixed(_MixAsyncEnter, _MixAsyncExit, AsyncMgr):
+    pass
+
+
+FLAVOURS = {"Sa": SyncAliased, "Sd": SyncDecorated, "Sv": SyncVarDecorated, "Sm": SyncMixed,
+            "Aa": AsyncAliased, "Ad": AsyncDecorated, "Av": AsyncVarDecorated, "Am": AsyncMixed}
 
 
 class _Box(object):
@@ -1025,7 +1140,9 @@ def M(kind, site, owner="main", *extra):
     R.serial += 1
     serial = R.serial
     R.log.append(("new", kind, site, serial))
-    if kind in ("S", "Sw", "Sr", "Sq"):
+    if kind in FLAVOURS:
+        m = FLAVOURS[kind](R, kind, site, serial, owner)
+    elif kind in ("S", "Sw", "Sr", "Sq"):
         m = SyncMgr(R, kind, site, serial, owner)
     elif kind in ("A", "Aw", "Ae", "Ax", "A0", "Ar"):
         m = AsyncMgr(R, kind, site, serial, owner)
@@ -1287,10 +1404,20 @@ def own_frame(obj):
     return None
 
 
-def referents_ok(got, R, owner):
-    """C20 relation between a referents-mode answer and the truth.  Returns None or a message."""
+ALIAS_KINDS = ("Sa", "Aa")
+
+
+def referents_ok(got, R, owner, strict=False):
+    """C20 relation between a referents-mode answer and the truth.  Returns None or a message.
+    Unless `strict`, managers whose exit method is an alias of a function with another name
+    (kinds Sa/Aa) are optional: the referents analysis recognises exit methods by
+    __func__.__name__ and documents that it cannot see those (leg_known reproduces it)."""
     truth = R.truth.get(owner, [])
     active = [(m, a) for (m, a, ph) in truth if ph == "active"]
+    optional = []
+    if not strict:
+        optional = [m for (m, a) in active if getattr(m, "kind", None) in ALIAS_KINDS]
+        active = [(m, a) for (m, a) in active if getattr(m, "kind", None) not in ALIAS_KINDS]
     entering = [m for (m, a, ph) in truth if ph == "entering"]
     exiting = [(m, a) for (m, a, ph) in truth if ph == "exiting"]
     flagged = [g for g in got if g[2]]
@@ -1305,7 +1432,7 @@ def referents_ok(got, R, owner):
             return "is_exiting entry has wrong is_async"
         if g[0] is not None and g[0] is not exiting[0][0]:
             return "is_exiting entry has wrong obj"
-    allowed_extra = entering + [m for m, _ in exiting]
+    allowed_extra = entering + [m for m, _ in exiting] + optional
     i = 0
     for g in plain:
         if i < len(active) and g[0] is active[i][0]:
@@ -1318,6 +1445,28 @@ def referents_ok(got, R, owner):
             return "unexpected entry %s" % mgr_label(g[0])
     if i != len(active):
         return "active manager %s missing" % mgr_label(active[i][0])
+    return None
+
+
+def details_msg(prog, R, owner, contexts):
+    """Trickery mode: varname and start_line of every reported context of the program's own
+    frame against the with statement in the source (positions already matched the truth)."""
+    if owner != "main":
+        return None
+    entries = [e for e in R.truth.get("main", ()) if e[2] != "entering"]
+    if len(entries) != len(contexts):
+        return None
+    for e, cx in zip(entries, contexts):
+        info = prog.sites.get(getattr(e[0], "site", None))
+        if info is None:
+            continue
+        line0, _, kind, _, tgt, _ = info
+        site = e[0].site
+        want = {"n": None, "a": "ns.a%d" % site, "s": "d[%d]" % site}.get(tgt, "x%d" % site)
+        if cx.varname != want:
+            return "varname of %s is %r, source says %r" % (mgr_label(e[0]), cx.varname, want)
+        if cx.start_line != line0:
+            return "start_line of %s is %r, with statement is on line %d" % (mgr_label(e[0]), cx.start_line, line0)
     return None
 
 
@@ -1336,6 +1485,9 @@ class Collector(object):
         self.codes = set()
         self.state_hist = {}
         self.observer = None     # callable(record) for every observation of the program's own frame
+        self.strict_alias = False
+        self.sigger = classify_violation
+        self.nknown = 0
 
     def count(self, key, n=1):
         self.counts[key] = self.counts.get(key, 0) + n
@@ -1368,8 +1520,11 @@ class Collector(object):
         self.state_hist[key] = self.state_hist.get(key, 0) + 1
 
     def violation(self, what, R, prog, **extra):
-        self.nviol += 1
-        sig = classify_violation(what, R, prog, extra)
+        sig = self.sigger(what, R, prog, extra)
+        if sig:
+            self.nknown += 1
+        else:
+            self.nviol += 1
         if len(self.violations) < 40 or (sig and sum(1 for v in self.violations if v.get("sig") == sig) < 3):
             inp = {"program": prog.src, "variant": prog.variant, "family": prog.desc.get("family"),
                    "tag": prog.desc.get("tag"), "tree": prog.desc["body"], "flags": prog.desc.get("flags"),
@@ -1384,7 +1539,7 @@ class Collector(object):
         inf = {"counts": self.counts, "distinct_code_objects": len(self.codes),
                "by_variant": self.by_variant, "by_family": self.by_family,
                "by_construct": self.by_construct, "truth_states": self.state_hist,
-               "violations_total": self.nviol, "python": "%d.%d.%d" % sys.version_info[:3]}
+               "violations_total": self.nviol, "known_total": self.nknown, "python": "%d.%d.%d" % sys.version_info[:3]}
         inf.update(info)
         return {"evaluations": self.evaluations, "violations": self.violations, "info": inf}
 
@@ -1429,8 +1584,13 @@ def observe_suspended(col, prog, R, obj, how, idx, mode):
                 col.violation("extract: contexts of %s frame differ from truth" % (owner,), R, prog,
                               got=show_view(got), expected=show_view(exp),
                               lasti=fr.pyframe.f_lasti, **where)
+            else:
+                msg = details_msg(prog, R, owner, fr.contexts)
+                col.evaluations += 1
+                if msg:
+                    col.violation("extract: " + msg, R, prog, lasti=fr.pyframe.f_lasti, **where)
         else:
-            msg = referents_ok(got, R, owner)
+            msg = referents_ok(got, R, owner, col.strict_alias)
             if msg is None and any(g[2] and g[0] is None for g in got):
                 msg = "is_exiting entry has obj None although the exit frame is available"
             if msg:
@@ -1468,6 +1628,10 @@ def observe_suspended(col, prog, R, obj, how, idx, mode):
             if not same_view(got, exp):
                 col.violation("contexts_active_in_frame: %s frame differs from truth" % (owner,), R, prog,
                               got=show_view(got), expected=show_view(exp), lasti=frame.f_lasti, **where)
+            else:
+                msg = details_msg(prog, R, owner, cs)
+                if msg:
+                    col.violation("contexts_active_in_frame: " + msg, R, prog, lasti=frame.f_lasti, **where)
             # without next_inner the exiting entry carries no obj, everything else is unchanged
             if nxt is not None and exp and exp[-1][2]:
                 cs2 = ll.contexts_active_in_frame(frame, tobj, None)
@@ -1477,7 +1641,7 @@ def observe_suspended(col, prog, R, obj, how, idx, mode):
                     col.violation("contexts_active_in_frame(next_inner=None) differs", R, prog,
                                   got=show_view(view(cs2)), expected=show_view(exp2), **where)
         else:
-            msg = referents_ok(got, R, owner)
+            msg = referents_ok(got, R, owner, col.strict_alias)
             if msg:
                 col.violation("contexts_active_in_frame (referents): " + msg, R, prog, got=show_view(got),
                               truth=[[mgr_label(m), a, ph] for (m, a, ph) in R.truth.get(owner, ())],
@@ -1542,6 +1706,11 @@ def observe_running(col, prog, R, where, mgr, idx, snap):
         if not same_view(got, exp):
             col.violation("running: contexts of %s frame differ from truth" % (owner,), R, prog,
                           got=show_view(got), expected=show_view(exp), lasti=fr.pyframe.f_lasti, **info)
+        else:
+            msg = details_msg(prog, R, owner, fr.contexts)
+            col.evaluations += 1
+            if msg:
+                col.violation("running: " + msg, R, prog, lasti=fr.pyframe.f_lasti, **info)
     if not found_main:
         col.violation("program frame not found in extract_since() result", R, prog,
                       frames=[f.pyframe.f_code.co_name for f in st.frames], **info)
@@ -1563,6 +1732,10 @@ def observe_running(col, prog, R, where, mgr, idx, snap):
     if not same_view(view(cs), exp):
         col.violation("running: contexts_active_in_frame differs from truth", R, prog,
                       got=show_view(view(cs)), expected=show_view(exp), lasti=fr.pyframe.f_lasti, **info)
+    else:
+        msg = details_msg(prog, R, "main", cs)
+        if msg:
+            col.violation("running: contexts_active_in_frame: " + msg, R, prog, lasti=fr.pyframe.f_lasti, **info)
 
 
 # =========================================================================================
@@ -1872,6 +2045,51 @@ def trickery_sequences(col, tier, seed):
                     col.violations.append({"what": "[referents] set_trickery_enabled(%r) from another thread not seen: %s"
                                            % (val2, here),
                                            "input": {"sequence": [repr(x) for x in s]}})
+        # a setter on a second thread that runs while this thread is inside the auto-detection
+        # self-test: once set_trickery_enabled(v) has returned, v must be what later reads see
+        # (the self-test must not overwrite it)
+        orig = ll._contexts_active_by_trickery
+        for trial in range(3):
+            fired = []
+            done = threading.Event()
+            box = {}
+
+            def setter():
+                ll.set_trickery_enabled(False)
+                done.set()
+
+            def hooked(frame):
+                if not fired and threading.current_thread() is threading.main_thread():
+                    fired.append(1)
+                    box["t"] = threading.Thread(target=setter)
+                    box["t"].start()
+                    done.wait(0.25)
+                return orig(frame)
+
+            ll.set_trickery_enabled(None)
+            ll._contexts_active_by_trickery = hooked
+            try:
+                first = []
+                mode_now(first)
+            finally:
+                ll._contexts_active_by_trickery = orig
+            if "t" in box:
+                box["t"].join()
+            here, there = [], []
+            mode_now(here)
+            th = threading.Thread(target=mode_now, args=(there,))
+            th.start()
+            th.join()
+            col.evaluations += 1
+            col.count("mode_switch_race_checks")
+            if not fired:
+                col.count("mode_switch_race_not_reached")
+            elif here != ["referents"] or there != ["referents"]:
+                col.nviol += 1
+                col.violations.append({"what": "[referents] set_trickery_enabled(False) issued on a second thread during the "
+                                               "auto-detection self-test was lost: later reads main=%s thread=%s" % (here, there),
+                                       "input": {"scenario": "set(None); thread A extracts (self-test running); thread B set(False) returns; A finishes",
+                                                 "trial": trial}})
     finally:
         ll.set_trickery_enabled(None)
         co.close()
@@ -2024,7 +2242,96 @@ def leg_referents(tier="quick", seed=0, variants=VARIANTS, progs=None, shard=Non
     return res
 
 
-LEGS = {"suspended": leg_suspended, "running": leg_running, "referents": leg_referents}
+# ---- recorded discrepancies (sig-tagged), kept out of the main legs ---------------------------
+KNOWN_SIGS = {
+    "exit_wrapper_varargs_obj_none":
+        "the exiting manager's __exit__/__aexit__ is wrapped by a decorator whose wrapper is "
+        "`def wrapper(*args, **kwargs)`: the next inner frame has no named first argument, so "
+        "Context.obj of the is_exiting entry stays None (C01 suspended inside __aexit__, C02 "
+        "running inside/below __exit__)",
+    "referents_alias_exit_name":
+        "referents mode (C20): a manager whose exit method is an alias of a function with another "
+        "name (`__exit__ = close`) is not reported although it is active; the fallback recognises "
+        "exit methods by __func__.__name__ (documented limitation of set_trickery_enabled(False))",
+}
+
+
+def known_programs(variants=VARIANTS):
+    for variant in variants:
+        a = variant in ASYNC_VARIANTS
+        k = "Av" if a else "Sv"
+        yield {"variant": variant, "family": "known", "tag": "varargs-wrapped exit",
+               "body": [["with", a, [["S" if not a else "A", "v"], [k, "v"]], [["susp"], ["probe"]]], ["susp"]]}
+        yield {"variant": variant, "family": "known", "tag": "varargs-wrapped exit, exception path",
+               "body": [["try", [["with", a, [[k, "n"]], [["susp"], ["raise", "E1"]]]], [["E1", [["susp"]]]], None, None]]}
+        k = "Aa" if a else "Sa"
+        yield {"variant": variant, "family": "known", "tag": "aliased exit",
+               "body": [["with", a, [[k, "v"]], [["susp"], ["with", False, [["S", "n"]], [["susp"]]]]], ["susp"]]}
+
+
+def _known_sigger(what, R, prog, extra):
+    kinds = set(k for st in _walk(prog.desc["body"]) if st[0] == "with" for k, _ in st[2])
+    got, exp = extra.get("got"), extra.get("expected")
+    if kinds & {"Sv", "Av"} and got is not None and exp is not None and len(got) == len(exp) and got and exp:
+        if got[:-1] == exp[:-1] and got[-1][1:] == exp[-1][1:] and got[-1][0] is None and exp[-1][2] \
+                and str(exp[-1][0]).startswith(("Sv@", "Av@")):
+            return "exit_wrapper_varargs_obj_none"
+    if kinds & {"Sv", "Av"} and "is_exiting entry has obj None although the exit frame is available" in what:
+        return "exit_wrapper_varargs_obj_none"
+    if kinds & set(ALIAS_KINDS) and "(referents)" in what and ("missing" in what or "unexpected entry" in what):
+        truth = extra.get("truth") or []
+        if any(str(t[0]).startswith(("Sa@", "Aa@")) for t in truth):
+            return "referents_alias_exit_name"
+    return None
+
+
+def leg_known(tier="quick", seed=0, variants=VARIANTS, progs=None, shard=None):
+    """Reproduces the recorded discrepancies on a handful of dedicated programs: every violation
+    that matches a recorded signature carries `sig`; anything else is an ordinary violation.
+    result["known_reproduced"] lists the signatures seen."""
+    t0 = time.time()
+    if shard and shard[0] != 0:
+        return {"evaluations": 0, "violations": [], "known_reproduced": [], "info": {"counts": {}, "violations_total": 0, "known_total": 0}}
+    kp = [Program(d, "known%d" % i) for i, d in enumerate(known_programs(variants))]
+    out = {"evaluations": 0, "violations": [], "info": {"counts": {}, "violations_total": 0, "known_total": 0, "parts": {}}}
+    ll = _ll()
+    cfg = TIERS["tiny"]
+    for name in ("suspended", "running", "referents"):
+        col = Collector("known/" + name)
+        col.sigger = _known_sigger
+        col.strict_alias = True
+        with _Warn():
+            if name == "running":
+                for prog in kp:
+                    col.note_program(prog)
+
+                    def on_probe(R, where, mgr, idx, prog=prog):
+                        observe_running(col, prog, R, where, mgr, idx, snap_running(R, idx))
+
+                    explore(prog, None, 8, on_probe, None, None)
+                    explore(prog, 0, 4, on_probe, None, None)
+            else:
+                try:
+                    if name == "referents":
+                        ll.set_trickery_enabled(False)
+                    _run_suspended(col, kp, cfg, "trickery" if name == "suspended" else "referents", time.time())
+                finally:
+                    if name == "referents":
+                        ll.set_trickery_enabled(None)
+        r = col.result()
+        out["evaluations"] += r["evaluations"]
+        out["violations"] += r["violations"]
+        out["info"]["violations_total"] += col.nviol
+        out["info"]["known_total"] += col.nknown
+        out["info"]["parts"][name] = {"evaluations": r["evaluations"], "violations_total": col.nviol, "known_total": col.nknown}
+    out["known_reproduced"] = sorted(set(v["sig"] for v in out["violations"] if v.get("sig")))
+    out["info"]["known_sigs"] = KNOWN_SIGS
+    out["info"]["wall"] = round(time.time() - t0, 2)
+    out["info"]["python"] = "%d.%d.%d" % sys.version_info[:3]
+    return out
+
+
+LEGS = {"suspended": leg_suspended, "running": leg_running, "referents": leg_referents, "known": leg_known}
 
 
 def main(argv=None):
